@@ -1,3 +1,4 @@
 from .plan import register
 
 register('C03', 'C03-layout', 'B', 'bounded.c03_layout:run', shards={'quick': 8, 'thorough': 16})
+register('C01', 'G1G2-typestate', 'G', 'vcheck.gtasks:run_g1g2')
